@@ -47,9 +47,20 @@ def prepare(scratch, units):
             else:
                 src = asrc
         line = '\n#[cfg(kani)] #[path = "%s"] mod __verif_%s;\n' % (upath, u.name)
-        write(tgt, src + line)
-        changes.append("%s: appended `#[cfg(kani)] mod __verif_%s` (text of contracts/kani/%s)" % (
-            u.target, u.name, os.path.basename(u.path)))
+        above = (u.meta.get("inject-above") or [None])[0]
+        if above:
+            n = src.count(above)
+            if n != 1:
+                raise KaniError("lost anchor: %r occurs %d times in %s (unit %s)" % (above, n, u.target, u.name))
+            i = src.index(above)
+            ls = src.rfind("\n", 0, i) + 1
+            write(tgt, src[:ls] + line.strip("\n") + "\n" + src[ls:])
+            changes.append("%s: inserted `#[cfg(kani)] mod __verif_%s` above `%s` (text of contracts/kani/%s)" % (
+                u.target, u.name, above, os.path.basename(u.path)))
+        else:
+            write(tgt, src + line)
+            changes.append("%s: appended `#[cfg(kani)] mod __verif_%s` (text of contracts/kani/%s)" % (
+                u.target, u.name, os.path.basename(u.path)))
     return changes
 
 
